@@ -193,7 +193,8 @@ theorem getIntersection_eq_sql (db : Db) (hdb : JoinDb db) (hne : db.tabs ≠ []
     obtain ⟨t, ht, hn⟩ := this
     rw [← hn, hnames]; exact hdb.idx ni.2 t (by simpa using ht)
   unfold getIntersection
-  simp only [hx, List.isEmpty_nil, Bool.not_true, Bool.false_eq_true, if_false, hm]
+  obtain ⟨m', hm', hj⟩ := JoinProofs.matchCols_some db mnames m hm
+  simp only [hx, List.isEmpty_nil, Bool.not_true, Bool.false_eq_true, if_false, hm', hj]
   cases hc : (Py.splitOn ',' column).mapM (colOf db) with
   | error e =>
     obtain ⟨he, hnone⟩ := hmodelE e hc
@@ -220,6 +221,7 @@ theorem getIntersection_eq_sql (db : Db) (hdb : JoinDb db) (hne : db.tabs ≠ []
     rw [show names.length = db.tabs.length from by rw [hnames]; simp]
     apply List.map_congr_left
     intro it _
+    rw [hj]
     apply List.map_congr_left
     intro tup _
     cases tup[it]? <;> rfl
